@@ -254,6 +254,12 @@ func c17() {
 		nv++
 	}
 
+	// the cache holds the complete dump of an earlier build; two runs on the rebuilt binary overlap and the first of them
+	// fails (its disassembler exits 1, or it is killed) while the second one is under way or waits for it
+	for i, pr := range [][2]int{{8192, 100}, {20000, 8192}, {100, 20000}, {total / 2, 4096}, {4096, 0}, {65536, 40000}} {
+		hists = append(hists, hist{kind: "binary-replaced-then-overlapping-runs-first-fails", k: pr[0], k2: pr[1], v: i % 2})
+	}
+
 	var mu sync.Mutex
 	outcomes := map[string]int64{}
 	cacheLens := map[int64]bool{}
@@ -345,7 +351,9 @@ func c17() {
 				run.Inconclusive("cannot run profiler: " + err.Error())
 				return
 			}
-			bPaused := b.WaitReady(30 * time.Second)
+			// an implementation may serialise overlapping runs (a lock): run B then reaches its disassembler only after run A
+			// has ended. That is as right as running side by side: A is finished first and B is waited for afterwards
+			bPaused := b.WaitReady(6 * time.Second)
 			finish := func(name string, p *vlib.PausedRun, kill bool, exit int) bool {
 				if kill {
 					p.Kill()
@@ -367,7 +375,12 @@ func c17() {
 			}
 			steps = append(steps, fmt.Sprintf("run A: disassembler pauses after %d bytes; run B started on the same binary: disassembler pauses after %d bytes (paused=%v); cache=%v", h.k, h.k2, bPaused, th.CacheFiles()))
 			ok := true
-			if bFirst {
+			if !bPaused {
+				run.Count("interleaved_pairs_in_which_the_second_run_waited_for_the_first", 1)
+				ok = finish("A", a, false, endA)
+				b.WaitReady(30 * time.Second)
+				ok = finish("B", b, endB == 2, bexit) && ok
+			} else if bFirst {
 				ok = finish("B", b, endB == 2, bexit)
 				ok = finish("A", a, false, endA) && ok
 			} else {
@@ -380,6 +393,53 @@ func c17() {
 			run.Count("interleaved_run_pairs", 1)
 			if endB == 2 {
 				run.Count("real_kills", 1)
+			}
+		case "binary-replaced-then-overlapping-runs-first-fails":
+			step(vlib.ToolRun{Argv: argv(target), FakeMode: "emit", Listing: fx.listA}, "run 1: normal, binary A")
+			copyFile(target, fx.binB)
+			wantProfile, finalListing = coldB, fx.listB
+			steps = append(steps, "binary at the same path replaced by B")
+			a, err := th.StartPaused(vlib.ToolRun{Argv: argv(target), Listing: fx.listB, K: h.k, Exit: 1, Env: henv})
+			if err != nil {
+				run.Inconclusive("cannot run profiler: " + err.Error())
+				return
+			}
+			if !a.WaitReady(30 * time.Second) {
+				a.Kill()
+				a.Wait(5 * time.Second)
+				run.SoftInconclusive("overlap-after-replacement history: run A never paused")
+				return
+			}
+			b, err := th.StartPaused(vlib.ToolRun{Argv: argv(target), Listing: fx.listB, K: h.k2, Exit: 0, Env: henv})
+			if err != nil {
+				a.Kill()
+				a.Wait(5 * time.Second)
+				run.Inconclusive("cannot run profiler: " + err.Error())
+				return
+			}
+			bPaused := b.WaitReady(6 * time.Second) // false: B waits for A (a serialising implementation) - as right
+			if h.v == 1 {
+				a.Kill()
+			} else {
+				a.Release() // its disassembler prints the rest and exits 1
+			}
+			ra := a.Wait(60 * time.Second)
+			steps = append(steps, fmt.Sprintf("run A on B (disassembler paused after %d bytes, then %s) -> exit=%d signaled=%v; run B on B had reached its disassembler: %v; cache=%v", h.k, []string{"exits 1", "profiler killed"}[h.v], ra.ExitCode, ra.Signaled, bPaused, th.CacheFiles()))
+			if !bPaused {
+				b.WaitReady(30 * time.Second)
+			}
+			b.Release()
+			rb := b.Wait(60 * time.Second)
+			steps = append(steps, fmt.Sprintf("run B on B ends -> exit=%d signaled=%v cache=%v", rb.ExitCode, rb.Signaled, th.CacheFiles()))
+			if ra.TimedOut || rb.TimedOut {
+				run.SoftInconclusive("overlap-after-replacement history: a run timed out")
+				return
+			}
+			run.Count("overlapping_runs_after_binary_replacement", 1)
+			if rb.ExitCode == 0 && !rb.Signaled && rb.Stdout != coldB {
+				run.Violation("other-binarys-cache-trusted:"+h.kind, fmt.Sprintf("history '%s' (k=%d, k2=%d, first run %s): the second of two overlapping runs on the replaced binary exits 0 with a profile of %d syscalls; a cold cache gives %d for this binary (and %d for the binary that was there before)", h.kind, h.k, h.k2, []string{"fails", "is killed"}[h.v], len(profileNames(rb.Stdout)), len(profileNames(coldB)), len(profileNames(coldA))),
+					map[string]any{"check": "C17", "history": h.kind, "k": h.k, "k2": h.k2, "v": h.v, "steps": steps, "stderr_tail": tail(rb.Stderr, 600)})
+				return
 			}
 		case "kill-while-writing-long-name":
 			res := step(vlib.ToolRun{Argv: argv(target), FakeMode: "block", Listing: fx.listA, K: h.k, KillAfter: true, Timeout: 20 * time.Second}, fmt.Sprintf("run 1: binary name of %d characters, disassembler emits %d bytes and blocks, profiler SIGKILLed", h.k2, h.k))
